@@ -422,7 +422,10 @@ class Hessian(ValueArray):
 
     def copy(self, *args, **kwargs) -> "Hessian":
         return self.__class__(
-            np.copy(self), units=self.units, atoms=self.atoms
+            np.copy(self),
+            units=self.units,
+            atoms=self.atoms,
+            functional=self.functional,
         )
 
 
